@@ -256,6 +256,23 @@ theorem po_vs_mo_unconditional_refuted : ¬ PoVsMoUnconditional := by
   simp [Spec.Metamorphic.EqModulo, check, afterLoad, runStages, pipeline, blind, datesStage, messagesStage, quietParts,
     checkDates, checkDatesField, emptyFileGate, keepLine] at this
 
+/-- the witness of that finding in the two loader models (C10's `Po.detectLine` = polib's line regex, C08's `Mo.findCharset` =
+    moparser's / gettext's `charset=` search): for the header line `Content-Type: text/plain;charset=UTF-8` the PO loader
+    finds no charset declaration, the MO loader finds `UTF-8` -/
+theorem charset_declaration_refuted :
+    Po.detectLine ("\"Content-Type: text/plain;charset=UTF-8\\n\"\n".toList.map fun c => UInt8.ofNat c.toNat) = none ∧
+    Mo.findCharset ("Content-Type: text/plain;charset=UTF-8\n".toList.map fun c => UInt8.ofNat c.toNat)
+      = some ("UTF-8".toList.map fun c => UInt8.ofNat c.toNat) := by
+  constructor <;> decide
+
+/-- … while for the usual spelling both find it -/
+theorem charset_declaration_usual :
+    Po.detectLine ("\"Content-Type: text/plain; charset=UTF-8\\n\"\n".toList.map fun c => UInt8.ofNat c.toNat)
+      = some ("UTF-8".toList.map fun c => UInt8.ofNat c.toNat) ∧
+    Mo.findCharset ("Content-Type: text/plain; charset=UTF-8\n".toList.map fun c => UInt8.ofNat c.toNat)
+      = some ("UTF-8".toList.map fun c => UInt8.ofNat c.toNat) := by
+  constructor <;> decide
+
 /-! ## 4b. why the PO file of the PO-versus-MO clause is taken in msgfmt order
 
 `unusual-character-in-translation` reports each character once per file, under the first message (in file order) whose
@@ -508,6 +525,38 @@ theorem po_vs_mo_composed_check (w : Real.World) (env : Po.Env) (db : Mo.CodecDB
     have e2 : Real.ctxOfPo false (poView f) false = (⟨false, false⟩, (Real.ctxOfPo false (poView f) false).2) := rfl
     rw [e1, e2, a, b, List.filter_filter]
     simp
+
+/-- **C17, third sentence, end to end for the composed model.**  A PO file that spells a catalog (C10) whose messages have
+    no PO-only features (`Real.poOfMo`: no flags, comments, references, previous msgid; not obsolete), all translated, no
+    header comment — and an MO file that encodes (C08, any layout, revision without hidden strings) a byte catalog decoding
+    to the same messages: the MO run prints the PO run's lines minus `no-date-header-field POT-Creation-Date`, and ends alike.
+    (The PO entries are in the MO file's order: see `blame_is_order_sensitive`.  The loaders must agree on the charset:
+    `hdec` says what the MO loader decodes, `SpelledFile` what the PO loader does — cf. `charset_declaration_refuted`.) -/
+theorem po_file_vs_compiled_mo (w : Real.World) (env : Po.Env) (hpy : PyEnv env) (E : Codec) (name : Po.Bytes) (cat : CatalogSp)
+    (filePo : Po.Bytes) (hpo : SpelledFile env E name cat filePo)
+    (db : Mo.CodecDB) (fileMo : Mo.Bytes) (mcat : List CatEntry) (hmo : Encodes fileMo mcat false) (hwf : ∀ e ∈ mcat, e.WF)
+    (mes : List Mo.Entry) (hdec : Mo.Spec.expected db none mcat false = .ok ⟨mes, false⟩)
+    (hcomment : cat.headerText = []) (hsame : cat.entries.map EntrySp.entry = mes.map Real.poOfMo)
+    (htr : ∀ e ∈ mes, Translated e) (statOk : Bool) :
+    Spec.Metamorphic.EqModulo (keepLine Real.notExempt) (Real.checkMo w db statOk fileMo).lines (Real.checkPo w env false statOk filePo).lines ∧
+    (Real.checkMo w db statOk fileMo).uncaught = (Real.checkPo w env false statOk filePo).uncaught := by
+  obtain ⟨f, lf, vf⟩ := poLoad_spelled env hpy E name cat filePo hpo
+  have lg : moLoad db fileMo false = .ok ⟨mes, false⟩ := by
+    unfold moLoad
+    simp only [Bool.false_eq_true, if_false]
+    rw [C08.parse_of_encodes db none fileMo mcat false hmo hwf, hdec]
+  have hv : f.header = cat.headerText ∧ f.entries.map Lemmas.PoCatalog.content = cat.entries.map EntrySp.entry := by
+    simp only [poView, Prod.mk.injEq] at vf; exact vf
+  apply po_vs_mo_composed_check w env db statOk filePo fileMo f ⟨mes, false⟩ lf lg rfl (by rw [hv.1, hcomment])
+  have e1 : f.entries.map (observe ∘ ofPoEntry) = (f.entries.map Lemmas.PoCatalog.content).map (observe ∘ ofPoEntry) := by
+    rw [List.map_map]
+    apply List.map_congr_left
+    intro e _
+    exact (Real.observe_content e).symm
+  rw [e1, hv.2, hsame, List.map_map]
+  apply List.map_congr_left
+  intro e he
+  exact Real.observe_poOfMo e (htr e he)
 
 /-- **Transcoding for the composed checker.**  Two `ctx` related by `Real.TcRel`: everything equal, except that the header
     entries' texts may differ in the charset name of their one well-formed `Content-Type: text/plain; charset=<name>` line
